@@ -125,6 +125,12 @@ def _allocsplit(ex, args, ins, where):
     return None
 
 
+@harness('vSliceSplit')
+def _slicesplit(ex, args, ins, where):
+    ex.slice_split = args[0]
+    return None
+
+
 @harness('vCut')
 def _cut(ex, args, ins, where):
     ex.stats['cuts'] += 1
